@@ -519,6 +519,10 @@ fn recover(
         }
     }
 
+    // The re-applied pages must be durable before the WAL, the only other description of them,
+    // is durably discarded.
+    ht_fd.sync_all()?;
+
     // Finally, we collapse the WAL file and fsync.
     writeout::truncate_wal(wal_fd, true)?;
 
